@@ -100,6 +100,43 @@ def check_case(acc, src, mode, origin):
                           {"defects": bad, "error": f"{type(e).__name__}({e.msg!r}) file={e.filename!r} {e.lineno}:{e.offset}-{getattr(e, 'end_lineno', None)}:{getattr(e, 'end_offset', None)} text={e.text!r:.80}"})
 
 
+# --- positions are character columns: a relation that needs no reference ---------------------------------------------------------------------
+# Replacing every occurrence of an ASCII letter-name by a non-ASCII letter of the same length (both NFKC-stable identifiers) changes no
+# character position of the text. If both texts are refused with the same message (up to the renamed letter), the reported line, offset, end
+# line and end offset must be identical: SyntaxError offsets count characters, as CPython's do, never UTF-8 bytes.
+_RENAMES = {"a": "é", "x": "ж", "b": "ß", "f": "ƒ", "T": "Ω", "A": "Ä", "X": "Ж", "e": "ε", "y": "ý", "c": "ç"}
+
+
+def renamed(src):
+    """the text with each single-letter name of _RENAMES replaced (also inside strings and comments - lengths do not change), or None"""
+    out = re.sub(r"(?<![\w'\"\\])([axbfTAXeyc])(?![\w'\"])", lambda m: _RENAMES[m.group(1)], src)
+    return out if out != src else None
+
+
+def rename_relation(acc, src, mode, py_version=None):
+    alt = renamed(src)
+    if alt is None:
+        return
+    kw = {"py_version": py_version} if py_version else {}
+    a, b = base.parse(src, mode, **kw), base.parse(alt, mode, **kw)
+    if a.kind != "syntax" or b.kind != "syntax":
+        acc.count("rename_pairs_not_both_refused")
+        return
+    back = {v: k for k, v in _RENAMES.items()}
+    unrename = lambda s: "".join(back.get(ch, ch) for ch in s) if isinstance(s, str) else s  # noqa: E731
+    if type(a.exc) is not type(b.exc) or unrename(b.exc.msg) != a.exc.msg:
+        acc.count("rename_pairs_different_error")  # e.g. a bytes literal that now holds a non-ASCII character
+        return
+    acc.count("rename_pairs_compared")
+    acc.evals += 1
+    acc.nontrivial(base.h64("rename", mode, alt, py_version))
+    pa = (a.exc.lineno, a.exc.offset, getattr(a.exc, "end_lineno", None), getattr(a.exc, "end_offset", None))
+    pb = (b.exc.lineno, b.exc.offset, getattr(b.exc, "end_lineno", None), getattr(b.exc, "end_offset", None))
+    if pa != pb or len(b.exc.text or "") != len(a.exc.text or ""):  # (that the text is the source line is the predicate's business)
+        acc.violation("error-position-changes-with-non-ascii-letters", {"src": alt, "mode": mode, "origin": "rename", "ascii": src, "py_version": list(py_version) if py_version else None},
+                      {"ascii_text": src[:200], "ascii_position": list(pa), "non_ascii_position": list(pb), "message": str(a.exc.msg)[:100], "ascii_line": a.exc.text, "non_ascii_line": b.exc.text})
+
+
 ERROR_SNIPPETS = None
 
 
@@ -152,13 +189,18 @@ def run_shard(shard):
     acc = Acc()
     if "replay" in shard:
         c = shard["replay"]
-        check_case(acc, c["src"], c["mode"], "replay")
+        if c.get("origin") == "rename" and c.get("ascii"):
+            rename_relation(acc, c["ascii"], c["mode"], tuple(c["py_version"]) if c.get("py_version") else None)
+        else:
+            check_case(acc, c["src"], c["mode"], "replay")
         return acc.dump()
     rnd = random.Random(f"{shard['seed']}:{shard['kind']}:{shard.get('idx', 0)}")
     kind = shard["kind"]
 
     def both(s, origin):
         check_case(acc, s, "exec", origin)
+        if rnd.random() < 0.12 or origin in ("snippet", "error-after-macro"):
+            rename_relation(acc, s, "exec")
         if rnd.random() < 0.4:
             check_case(acc, s, "eval", origin)
 
@@ -194,7 +236,13 @@ def run_shard(shard):
                     if pa != pb:
                         acc.violation("error-after-macro-misreported", {"src": mac + sep + bad, "mode": "exec"}, {"with_macro": list(map(str, pa)), "with_plain_call": list(map(str, pb))})
                 both(mac + sep + bad, "error-after-macro")
-        for s in VERSION_GATED:
+        from . import c15
+
+        for s0 in VERSION_GATED + c15.GATED:
+            for v in ((3, 8), (3, 10), (3, 11)):
+                for s in (s0, "a = 'b'; " + s0 if not s0.startswith(("@", " ")) else s0, s0.replace("pass", "f(a, 'x')  # e")):
+                    rename_relation(acc, s, "exec", v)
+        for s in VERSION_GATED + c15.GATED + [renamed(g) for g in VERSION_GATED + c15.GATED if renamed(g)]:
             for v in ((3, 8), (3, 10), (3, 11)):
                 out = base.parse(s, "exec", py_version=v)
                 if out.kind == "syntax":
